@@ -120,17 +120,30 @@ def probe_disjoint(m2):
     return f
 
 
+# graph ids the filter probe is run over: (the asking graph, the other graph, an id holding nothing).  "Restricts itself to the
+# nodes whose GraphID is the caller's" means EQUALITY of ids: the answers must be the same when one id is a substring / prefix
+# of the other (a name and its suffixed variant), in either direction
+ID_FAMILIES = [("g1", "g2", "g3"), ("g1", "g1-v2", "g"), ("exp-v2", "exp", "exp-v2-tmp"), ("1", "11", "")]
+
+
 def probe_filters(m1):
+    rs = [_probe_filters(m1, *ids) for ids in ID_FAMILIES]
+    if any(sorted(r) != sorted(rs[0]) for r in rs):
+        raise ExtractionError("filter probe rows differ between id families")
+    return {k: all(r[k] for r in rs) for k in rs[0]}
+
+
+def _probe_filters(m1, g1, g2, g3):
     from fim.graph.abc_property_graph import PropertyGraphQueryException
     imp, st = _shared(m1)
     A, B = nx.Graph(), nx.Graph()
     A.add_node(1, NodeID="x", Class="Link", Name="nm", Type="t")
     B.add_node(1, NodeID="y", Class="Link", Name="nm2", Type="t")
     B.add_node(2, NodeID="z", Class="NetworkNode", Name="nm3", Type="u")
-    st.add_graph("g1", A)
-    st.add_graph("g2", B)
-    pg1 = m1.NetworkXPropertyGraph(graph_id="g1", importer=imp)
-    pg3 = m1.NetworkXPropertyGraph(graph_id="g3", importer=imp)
+    st.add_graph(g1, A)
+    st.add_graph(g2, B)
+    pg1 = m1.NetworkXPropertyGraph(graph_id=g1, importer=imp)
+    pg3 = m1.NetworkXPropertyGraph(graph_id=g3, importer=imp)
     r = {}
     try:
         pg1._find_node(node_id="y")
@@ -143,8 +156,8 @@ def probe_filters(m1):
     r["get_all_nodes_by_class_and_type"] = sorted(pg1.get_all_nodes_by_class_and_type(label="Link", ntype="t")) == ["x"]
     r["check_node_unique"] = pg1.check_node_unique(label="Link", name="nm2") is True and pg1.check_node_unique(label="Link", name="nm") is False
     r["graph_exists"] = pg3.graph_exists() is False and pg1.graph_exists() is True
-    ex = st.extract_graph("g1")
-    r["extract_graph"] = ex is not None and len(ex.nodes) == 1 and st.extract_graph("g3") is None
+    ex = st.extract_graph(g1)
+    r["extract_graph"] = ex is not None and len(ex.nodes) == 1 and st.extract_graph(g3) is None
     try:
         pg1.add_node(node_id="y", label="Link")          # y exists in g2 only
         ok = sorted(pg1.list_all_node_ids()) == ["x", "y"]
@@ -156,8 +169,25 @@ def probe_filters(m1):
         r["add_node"] = ok
     except PropertyGraphQueryException:
         r["add_node"] = False
-    st.del_graph("g1")
-    r["del_graph"] = len(st.graphs.nodes) == 2 and all(d.get("GraphID") == "g2" for _, d in st.graphs.nodes(data=True))
+    def only_other():
+        return len(st.graphs.nodes) == 2 and all(d.get("GraphID") == g2 for _, d in st.graphs.nodes(data=True))
+
+    def both():
+        return sorted(str(d.get("GraphID")) for _, d in st.graphs.nodes(data=True)) == sorted([g1, g2, g2])
+
+    st.del_graph(g1)
+    ok = only_other()
+    # the same deletion as the first step of a REPLACING import (add_graph / add_graph_direct onto an id that holds nodes)
+    st.add_graph(g1, A)
+    ok = ok and both()
+    st.add_graph(g1, A)
+    ok = ok and both()
+    D = nx.Graph()
+    D.add_node(1, NodeID="x", Class="Link", Name="nm", Type="t", GraphID=g1)
+    st.add_graph_direct(g1, D)
+    ok = ok and both()
+    m1.NetworkXPropertyGraph(graph_id=g1, importer=imp).delete_graph()
+    r["del_graph"] = ok and only_other()
     return r
 
 
